@@ -110,6 +110,16 @@ def binding(draw, idx):
 @st.composite
 def c_source(draw):
     ms = [draw(binding(i)) for i in range(draw(st.integers(1, 4)))]
+    # one C function registered under a second Ruby name with another MRB_ARGS spec (the function reads its arguments with
+    # mrb_get_argc, so each registration's own spec is the only statement of its counts)
+    for m in list(ms):
+        if m["kind"].startswith("args-spec-only") and "mrb_define_class_method(" in m["define"] and draw(st.integers(0, 2)) == 0:
+            r2, o2 = draw(st.sampled_from([(0, 0), (1, 0), (2, 0), (3, 0), (1, 1), (0, 2), (4, 0)]))
+            spec2 = ([("MRB_ARGS_REQ(%d)" % r2)] if r2 else []) + ([("MRB_ARGS_OPT(%d)" % o2)] if o2 else []) or ["MRB_ARGS_NONE()"]
+            fn = "c_" + m["name"]
+            al = m["name"] + "_al"
+            ms.append({"name": al, "src": [], "define": '  mrb_define_class_method(mrb, cls, "%s", %s, %s);' % (al, fn, " | ".join(spec2)),
+                       "lo": r2, "hi": r2 + o2, "vals": [], "kind": "args-spec-only-alias", "assert": True, "post_with_opt": False})
     return {"methods": ms}
 
 
@@ -130,7 +140,7 @@ class Check(Prop):
     RULE = ("cases = generated C sources with 1-4 class-method bindings through mrb_define_class_method, mrb_define_class_method_id or "
             "mrbc_define_class_method; argument handling either a mrb_get_args format (required chars out of i f s S z A H b n o C with "
             "optional `!`, `|` optional section, `*`, `&`) with the matching MRB_ARGS spec, or an MRB_ARGS spec alone (REQ/OPT/REST/POST/"
-            "BLOCK/NONE/ANY in any order, joined with |), or GET_*_ARG(n) with an `argc >= n` guard for mrbc. Ground truth = accepted "
+            "BLOCK/NONE/ANY in any order, joined with |; one function may be registered under a second name with another spec), or GET_*_ARG(n) with an `argc >= n` guard for mrbc. Ground truth = accepted "
             "positional counts [lo, hi]. Oracle: two conversions are byte-identical; with the emitted JSON as the only class in the "
             ".ti-config (plus Object/Kernel), `Cbind.m(k args)` for k = 0..6 with values of the inferred types has no diagnostic exactly "
             "when lo <= k <= hi. Non-trivial = a binding with optional/rest/post arguments or a combined spec; distinct by SHA-1(C source).")
